@@ -383,6 +383,8 @@ def T(ctx, what):
 def clean_replays(ctx):
     """remove this check's replay files of an earlier run with the same tier and seed (they would be misleading)"""
     d = Path(__file__).resolve().parent.parent / "evidence" / "replays" / ctx.prop
+    if getattr(ctx, "replay", None):
+        return
     if d.is_dir():
         for f in d.glob("%s-seed%d-*.json" % (ctx.tier, ctx.seed)):
             f.unlink()
